@@ -6,7 +6,7 @@ base = dict(Claims='{"c1", "c2"}', MaxNow=1000, MaxFaults=1, MaxEnv=2, MaxLen=30
             PoolBg='{0}', OtherBg='{0}', MaxBad=0, MaxDel=0, ReadyVals='{"True", "False"}',
             RoundedClock='{}', ExpireSlack=0, ExpireNever='"check"', GcOnProvListError='"abort"', GcOnLookupError='"skip"',
             GcReady='"check"', NotFoundAsEmpty='{}', GcReadOrder='"claimsFirst"', LiveGate='"registered"',
-            LiveSlack=0, RepairSlack=0, RepairTolBy='"policy"', RepairExtra=0, RepairScope='"pool"', RepairOnListError='"abort"',
+            LiveSlack=0, RepairSlack=0, RepairTolBy='"policy"', RepairAnnotated='"check"', RepairExtra=0, RepairScope='"pool"', RepairOnListError='"abort"',
             RepairTerminating='"count"')
 order = list(base)
 INV = "INVARIANTS TypeOK Inv_C16_Expiration Inv_C16_GarbageCollection Inv_C16_Liveness Inv_C16_Repair\nPROPERTIES Act_C16_NoTriggerNoReap\n"
@@ -61,6 +61,7 @@ weak = [
     ("WeakLiveRound", "spec mutation: liveness compares a rounded clock reading -> Inv_C16_Liveness", dict(RoundedClock='{"live"}')),
     ("WeakRepairEarly", "spec mutation: repair one millisecond before the toleration elapsed -> Inv_C16_Repair", dict(RepairSlack=1)),
     ("WeakRepairRound", "spec mutation: repair compares a rounded clock reading -> Inv_C16_Repair", dict(RoundedClock='{"repair"}')),
+    ("WeakRepairAnnotated", "spec mutation: an already annotated NodeClaim (failed Delete of an earlier pass, or annotated by someone else) is deleted without consulting the 20 % breaker -> Inv_C16_Repair", dict(RepairAnnotated='"shortcut"')),
     ("WeakRepairExtra", "spec mutation: one more unhealthy node tolerated than 20 % rounded up -> Inv_C16_Repair", dict(RepairExtra=1)),
     ("WeakRepairScope", "spec mutation: pool claims judged against the whole cluster -> Inv_C16_Repair", dict(RepairScope='"cluster"')),
     ("WeakRepairList", "spec mutation: a failed node List is read as an empty list -> Inv_C16_Repair", dict(RepairOnListError='"continue"')),
